@@ -99,7 +99,9 @@ pub fn print_child(threads: usize, calls: usize, stream: &str) {
                         12 => {
                             // ONE write_all of escape-free text that contains controls which are not shown (BEL, BS): when stripping, the
                             // buffer falls into several runs - still one call
-                            let rec = format!("{}\x07{}\x08{}\n", frag(t, c, 1, 3, &pad), frag(t, c, 2, 3, "mid"), frag(t, c, 3, 3, "end"));
+                            // (controls inside the payloads too: every one of them is a place where the call's output could come apart)
+                            let bell: String = pad.chars().flat_map(|ch| [ch, '\x07']).take(24).collect();
+                            let rec = format!("{}\x07{}\x08{}\n", frag(t, c, 1, 3, &bell), frag(t, c, 2, 3, "m\x08i\x00d"), frag(t, c, 3, 3, "e\x07n\x07d"));
                             if stream == "stdout" { anstream::stdout().write_all(rec.as_bytes()).unwrap() } else { anstream::stderr().write_all(rec.as_bytes()).unwrap() }
                         }
                         7 => {
